@@ -180,6 +180,12 @@ func (r *Run) Fail(key, what string, replay any) {
 			return
 		}
 	}
+	if f := os.Getenv("VERIF_DUMP_KEYS"); f != "" { // development aid: every unlisted key, one per line
+		if fh, err := os.OpenFile(f, os.O_APPEND|os.O_CREATE|os.O_WRONLY, 0o644); err == nil {
+			fmt.Fprintln(fh, key)
+			fh.Close()
+		}
+	}
 	if len(r.violations) >= 40 {
 		r.violations = append(r.violations, violation{Key: key, What: what})
 		return
